@@ -33,7 +33,7 @@ ASSUMPTIONS = [
     "pow bases are generated reference-positive; denominators are r, positive constants or 1+e^2",
 ]
 REQUIRED = {"mod:sum": 20, "mod:product": 20, "mod:pow": 10, "mod:trans": 20, "mod:spline": 10,
-            "custom_calls_custom": 8, "has_if": 8, "has_pymath": 8, "has_as_call": 8, "table_leaf": 10, "sibling:differs": 30, "trans:argument_at_or_below_zero": 5, "api:shared_operand:sum": 8,
+            "custom_calls_custom": 8, "has_if": 8, "has_pymath": 8, "has_fmod": 2, "has_as_call": 8, "table_leaf": 10, "sibling:differs": 30, "sibling:one_parameter_differs:custom": 3, "trans:argument_at_or_below_zero": 5, "api:shared_operand:sum": 8,
             "api:shared_operand:product": 8}
 
 
@@ -45,9 +45,19 @@ def _style():
 
 
 @st.composite
-def _case(draw, depth, feature=None):
+def _case(draw, depth, feature=None, twin=False):
     customs = draw(gen.custom_forms(3, 2, last_feature=(None if feature == "negative_shift" else feature)))
     tables = draw(gen.table_forms(2, 12))
+    if twin:
+        # a formula that certainly reads both of its parameters, used by the two entries
+        V = lambda n: {"o": "var", "n": n}
+        shape = draw(st.sampled_from([
+            {"o": "+", "a": {"o": "*", "a": V("a"), "b": V("r")}, "b": V("b0")},
+            {"o": "+", "a": {"o": "/", "a": V("a"), "b": {"o": "+", "a": {"o": "num", "v": 1.0}, "b": {"o": "*", "a": V("r"), "b": V("r")}}},
+             "b": {"o": "*", "a": V("b0"), "b": V("r")}},
+            {"o": "*", "a": {"o": "-", "a": V("r"), "b": V("a")}, "b": {"o": "+", "a": V("b0"), "b": {"o": "num", "v": 0.25}}}]))
+        customs = [c for c in customs if c["name"] != "twinf"] + [{"name": "twinf", "params": ["r", "a", "b0"], "expr": shape}]
+        feature = "twin"
     pd = draw(gen.potdef(depth, customs, tables, max_ranges=4))
     if feature == "negative_shift":
         # trans(f, as.constant X) with X < 0: below r = -X the argument r + X is not positive, where a definition
@@ -73,7 +83,8 @@ def _case(draw, depth, feature=None):
     rs = draw(st.lists(gen.fl(0.05, 30.0), min_size=4, max_size=7))
     # a second entry of the same section that shares most of its text with the first one (the same modifier
     # acting from another separation, a further range, ...): each entry means what ITS text says
-    sib = gen.vary(draw, pd, gen.potdef(0, customs, tables, max_ranges=1).map(lambda d: d["ranges"][0]["body"]))
+    sib = gen.vary(draw, pd, gen.potdef(0, customs, tables, max_ranges=1).map(lambda d: d["ranges"][0]["body"]),
+                   how=("param_twin" if twin else None), customs=customs)
     for rg in pd["ranges"] + sib["ranges"]:
         if rg["m"] is not None:
             rs.extend([float(rg["s"]) + 0.125, float(rg["s"])])
@@ -82,6 +93,20 @@ def _case(draw, depth, feature=None):
     for b in model.walk_simple(pd):
         if b["k"] == "mod" and b["m"] == "trans" and b.get("x", 0) < 0:
             neg.extend([-0.5 * b["x"], -0.9 * b["x"], -1.0 * b["x"]])
+    # separations at which the dividend of a remainder is negative
+    def fmods(e):
+        if isinstance(e, dict):
+            if e.get("o") == "pymath" and e.get("f") == "fmod" and e["args"][0]["b"].get("o") == "num":
+                yield e["args"][0]["b"]["v"]
+            for x in e.values():
+                for y in fmods(x):
+                    yield y
+        elif isinstance(e, list):
+            for x in e:
+                for y in fmods(x):
+                    yield y
+    for c in list(fmods([f["expr"] for f in customs]))[:2]:
+        neg.extend([0.5 * c, 0.3 * c])
     rs = [r for r in neg[:6] + rs if r > 0][:15]
     styles = [draw(_style()), draw(_style())]
     order = draw(st.lists(st.floats(0, 1), min_size=8, max_size=8))
@@ -95,6 +120,9 @@ def strategy(tier):
 def strata(tier):
     out = [("plain:depth%d" % d, _case(d), w) for d, w in ((1, 2), (2, 3), (3, 2))]
     out.append(("negative_shift", _case(1, "negative_shift"), 1))
+    out.append(("formula:fmod", _case(1, "fmod"), 0.7))     # remainders with dividend and divisor of opposite signs
+    # two entries that use the same forms and differ in ONE parameter value (-1 / -2 and other close pairs)
+    out.append(("sibling:one_parameter", st.one_of(_case(1, "arith", True), _case(1, "func", True), _case(2, "arith", True)), 2.5))
     for feat in gen.FEATURES:
         out.append(("formula:" + feat, st.one_of(_case(1, feat), _case(2, feat)), 2))
     return out
@@ -175,6 +203,8 @@ def check_case(case):
         cls.append("has_if")
     if any(_expr_has(c["expr"], lambda e: e.get("o") == "pymath") for c in used):
         cls.append("has_pymath")
+    if any(_expr_has(c["expr"], lambda e: e.get("o") == "pymath" and e.get("f") == "fmod") for c in used):
+        cls.append("has_fmod")
     if any(_expr_has(c["expr"], lambda e: e.get("o") == "as") for c in used):
         cls.append("has_as_call")
     if used:
@@ -227,6 +257,13 @@ def check_case(case):
     sib = case.get("sibling")
     if sib is not None and not v:
         cls.append("sibling:" + ("same_text" if sib == pd else "differs"))
+        la, lb = gen._leaves(pd), gen._leaves(sib)
+        if sib != pd and [x[0] for x in la] == [x[0] for x in lb]:
+            diff = [(a, b) for (_, a), (_, b) in zip(la, lb) if a != b]
+            if len(diff) == 1 and diff[0][0]["k"] == diff[0][1]["k"] and diff[0][0].get("name") == diff[0][1].get("name"):
+                cls.append("sibling:one_parameter_differs:" + diff[0][0]["k"])
+                if sorted(set(diff[0][0]["p"]) ^ set(diff[0][1]["p"])) in ([-2, -1], [-2.0, -1.0]):
+                    cls.append("sibling:parameters_-1_and_-2:" + diff[0][0]["k"])
         tc = render.model_text({"tabulation": {"target": "LAMMPS", "nr": 5, "cutoff": 2.0}, "env": env,
                                 "pair": [("Al", "Al", pd), ("Al", "Cu", sib), ("Cu", "Cu", pd)]})
         try:
